@@ -1,16 +1,19 @@
 #!/bin/bash
 # usage: tools/try_mutant.sh <mutant-dir with patch.diff + demo.py> <check id> [more ids...]
-# Applies the patch to /repo, confirms tests pass + demo fails, runs the quick checks, reverts.
+# Works in a throw-away worktree of /repo's HEAD (so /repo itself stays untouched and other runs are not disturbed):
+# applies the patch, confirms tests pass + demo fails, runs the checks against the worktree (VERIF_REPO), removes it.
 set -u
 D=$1; shift
-cd /repo || exit 9
-if [ -n "$(git status --porcelain)" ]; then echo "REPO DIRTY"; exit 9; fi
+W=/tmp/mw-$$
+git -C /repo worktree add -q --detach $W HEAD || exit 9
+trap 'git -C /repo worktree remove --force '$W' 2>/dev/null; rm -rf /tmp/mwe-'$$ EXIT
+cd $W
 git apply "$D/patch.diff" || { echo "PATCH DOES NOT APPLY"; exit 9; }
-trap 'git -C /repo checkout -- . ; git -C /repo clean -fdq src utils 2>/dev/null' EXIT
-T=$(/venv/bin/python -m pytest -q -p no:cacheprovider 2>&1 | tail -1)
+T=$(PYTHONPATH=$W/src /venv/bin/python -m pytest -q -p no:cacheprovider 2>&1 | tail -1)
 echo "tests: $T"
-PYTHONPATH=/repo/src /venv/bin/python "$D/demo.py" >/tmp/demo.out 2>&1; echo "demo exit (with mutant): $? $(tail -1 /tmp/demo.out | cut -c1-150)"
+PYTHONPATH=$W/src /venv/bin/python "$D/demo.py" >/tmp/demo-$$.out 2>&1; echo "demo exit (with mutant): $? $(tail -1 /tmp/demo-$$.out | cut -c1-150)"; rm -f /tmp/demo-$$.out
 for id in "$@"; do
-  cd /verif && ./check "$id" --tier "${TIER:-quick}" > /tmp/chk.out 2>&1; rc=$?
-  echo "check $id exit=$rc :: $(grep -m2 -A1 'VIOLATION\|INCONCLUSIVE\|MISMATCH\|held' /tmp/chk.out | cut -c1-260 | tr '\n' ' ')"
+  cd /verif && VERIF_REPO=$W VERIF_EVIDENCE_DIR=/tmp/mwe-$$ ./check "$id" --tier "${TIER:-quick}" > /tmp/chk-$$.out 2>&1; rc=$?
+  echo "check $id exit=$rc :: $(grep -m2 -A1 'VIOLATION\|INCONCLUSIVE\|MISMATCH\|held' /tmp/chk-$$.out | cut -c1-260 | tr '\n' ' ')"
+  rm -f /tmp/chk-$$.out
 done
